@@ -56,6 +56,40 @@ func baseModel(ftype string) *mFlow {
 	return &mFlow{UUID: dFlow, Name: "Directed", Lang: "eng", OldLang: "eng", Type: ftype, Revision: 1, Expire: 5}
 }
 
+// legacySharedCategoryDef: a legacy flow whose first two rules share a category and a destination
+func legacySharedCategoryDef() []byte {
+	def := `{"base_language":"eng","flow_type":"F","entry":"` + dNode3 + `","metadata":{"uuid":"` + dFlow + `","name":"Shared","revision":3,"expires":720,"notes":[{"x":1,"y":2,"title":"t","body":"b"}]},
+"action_sets":[{"uuid":"` + dNode1 + `","x":0,"y":300,"destination":"` + dNode3 + `","exit_uuid":"` + dExit1 + `","actions":[{"type":"reply","uuid":"` + dAct1 + `","msg":{"eng":"Yes! @contact.name","fra":"Oui!"},"media":{},"send_all":false}]},
+{"uuid":"` + dNode2 + `","x":0,"y":100,"destination":null,"exit_uuid":"` + dExit2 + `","actions":[{"type":"reply","uuid":"` + dAct2 + `","msg":{"eng":"No."}}]}],
+"rule_sets":[{"uuid":"` + dNode3 + `","x":10,"y":500,"ruleset_type":"wait_message","label":"Answer","operand":"@step.value","config":{},"finished_key":null,"rules":[
+{"uuid":"ea304225-332e-49d4-9768-1e804cd0b6c2","test":{"type":"contains_any","test":{"eng":"yes","fra":"oui"}},"category":{"eng":"Yes","fra":"Oui"},"destination":"` + dNode1 + `","destination_type":"A"},
+{"uuid":"633dfe67-988e-4190-a95f-70f477494032","test":{"type":"contains_any","test":{"eng":"yeah yep"}},"category":{"eng":"Yes","fra":"Oui"},"destination":"` + dNode1 + `","destination_type":"A"},
+{"uuid":"1fc4c133-d038-4f75-a69e-6e7e3190e5d8","test":{"type":"starts","test":{"eng":"n"}},"category":{"eng":"No"},"destination":"` + dNode2 + `","destination_type":"A"},
+{"uuid":"2b8a87c9-3262-4dd7-ab57-b099f362b075","test":{"type":"true"},"category":{"eng":"Other"},"destination":"` + dNode3 + `","destination_type":"R"},
+{"uuid":"f966c0ac-1c17-4876-8c88-32495490a987","test":{"type":"timeout","minutes":5},"category":{"eng":"No Response"},"destination":null,"destination_type":null}]}]}`
+	return compact([]byte(def))
+}
+
+// reuseModel: three nodes - two actions and a plain exit; a switch router on a wait with two categories and two
+// exits (one looping back); a terminal node - so that every kind of thing has a near and a far thing of every kind
+func reuseModel() *mFlow {
+	m := baseModel("messaging")
+	router := map[string]any{"type": "switch", "operand": fixed("@input.text"), "result_name": lname{"Answer", "Answer"},
+		"wait":                  map[string]any{"type": "msg"},
+		"cases":                 []any{map[string]any{"uuid": dCase1, "type": "has_any_word", "arguments": []any{fixed("yes")}, "category_uuid": dCat1}},
+		"categories":            []any{map[string]any{"uuid": dCat1, "name": lname{"Yes", "Yes"}, "exit_uuid": dExit2}, map[string]any{"uuid": dCat2, "name": lname{"Other", "Other"}, "exit_uuid": dExit3}},
+		"default_category_uuid": dCat2}
+	m.Nodes = []*mNode{
+		{UUID: dNode1, Actions: []map[string]any{
+			{"uuid": dAct1, "type": "send_msg", "text": fixed("Hi @contact.name, ready?")},
+			{"uuid": dAct2, "type": "set_run_result", "name": lname{"Asked", "Asked"}, "value": fixed("yes")},
+		}, Exits: []mExit{{dExit1, dNode2}}},
+		{UUID: dNode2, Router: router, Exits: []mExit{{dExit2, dNode3}, {dExit3, dNode1}}},
+		{UUID: dNode3, Actions: []map[string]any{{"uuid": dAct3, "type": "send_msg", "text": fixed("Thanks")}}, Exits: []mExit{{dComp1, ""}}},
+	}
+	return m
+}
+
 func (p *c16) runDirected(c fw.Case, ck *checker) {
 	res := ck.res
 	fr := &faultRunner{res: res, ck: ck, label: "d:" + c.Directed}
@@ -145,16 +179,7 @@ func (p *c16) runDirected(c fw.Case, ck *checker) {
 		fr.try("empty-string", ".rule_sets[0].operand", []byte(fmt.Sprintf(legacyRuleSetHolder, rs)))
 
 	case "legacy-shared-category":
-		def := `{"base_language":"eng","flow_type":"F","entry":"` + dNode3 + `","metadata":{"uuid":"` + dFlow + `","name":"Shared","revision":3,"expires":720,"notes":[{"x":1,"y":2,"title":"t","body":"b"}]},
-"action_sets":[{"uuid":"` + dNode1 + `","x":0,"y":300,"destination":"` + dNode3 + `","exit_uuid":"` + dExit1 + `","actions":[{"type":"reply","uuid":"` + dAct1 + `","msg":{"eng":"Yes! @contact.name","fra":"Oui!"},"media":{},"send_all":false}]},
-{"uuid":"` + dNode2 + `","x":0,"y":100,"destination":null,"exit_uuid":"` + dExit2 + `","actions":[{"type":"reply","uuid":"` + dAct2 + `","msg":{"eng":"No."}}]}],
-"rule_sets":[{"uuid":"` + dNode3 + `","x":10,"y":500,"ruleset_type":"wait_message","label":"Answer","operand":"@step.value","config":{},"finished_key":null,"rules":[
-{"uuid":"ea304225-332e-49d4-9768-1e804cd0b6c2","test":{"type":"contains_any","test":{"eng":"yes","fra":"oui"}},"category":{"eng":"Yes","fra":"Oui"},"destination":"` + dNode1 + `","destination_type":"A"},
-{"uuid":"633dfe67-988e-4190-a95f-70f477494032","test":{"type":"contains_any","test":{"eng":"yeah yep"}},"category":{"eng":"Yes","fra":"Oui"},"destination":"` + dNode1 + `","destination_type":"A"},
-{"uuid":"1fc4c133-d038-4f75-a69e-6e7e3190e5d8","test":{"type":"starts","test":{"eng":"n"}},"category":{"eng":"No"},"destination":"` + dNode2 + `","destination_type":"A"},
-{"uuid":"2b8a87c9-3262-4dd7-ab57-b099f362b075","test":{"type":"true"},"category":{"eng":"Other"},"destination":"` + dNode3 + `","destination_type":"R"},
-{"uuid":"f966c0ac-1c17-4876-8c88-32495490a987","test":{"type":"timeout","minutes":5},"category":{"eng":"No Response"},"destination":null,"destination_type":null}]}]}`
-		data := compact([]byte(def))
+		data := legacySharedCategoryDef()
 		in := &validInput{Label: "d:" + c.Directed, Version: "legacy", Data: data, Legacy: true, Known: true, LegacyEx: legacyExpectOf(decodeObject(data), true), UUIDSeed: 11}
 		ck.checkValid(in)
 
@@ -228,6 +253,29 @@ func (p *c16) runDirected(c fw.Case, ck *checker) {
 		r := fw.NewRand(0, "C16-hostile", 0)
 		st := buildSeedTree([]byte(`{"uuid":"` + dFlow + `","spec_version":"13.0.0","nodes":[]}`))
 		fr.randomFaults(r, st, 60)
+
+	case "uuid-reuse-13x":
+		// a valid flow at the oldest, a middle and the current version; then every node / action / exit of it in
+		// turn given the UUID of a near and of a far node, action and exit (all nine kind pairs)
+		m := reuseModel()
+		p.runModel(ck, c.Directed, m, []int{0, 3, 6})
+		for _, minor := range []int{0, 3, 6} {
+			fr.label = fmt.Sprintf("d:%s@%s", c.Directed, minorName(minor))
+			if fr.reuseAll(buildSeedTree(m.render(minor).JSON)) == 0 {
+				res.Inconclusive = "directed model " + c.Directed + " has no UUID sites"
+			}
+		}
+
+	case "uuid-reuse-legacy":
+		// the same over the legacy form: action sets / rule sets are the nodes, exit_uuid and rule UUIDs the exits
+		data := legacySharedCategoryDef()
+		in := &validInput{Label: "d:" + c.Directed, Version: "legacy", Data: data, Legacy: true, Known: true, LegacyEx: legacyExpectOf(decodeObject(data), true), UUIDSeed: 11}
+		if ck.checkValid(in) == nil {
+			res.Inconclusive = "directed legacy definition of " + c.Directed + " does not migrate"
+		}
+		if fr.reuseAll(buildSeedTree(data)) == 0 {
+			res.Inconclusive = "directed legacy definition of " + c.Directed + " has no UUID sites"
+		}
 
 	case "own-testdata-pairs":
 		// goflow's own before/after pairs: the "original" of each must satisfy every clause
